@@ -90,7 +90,7 @@ EVAL_ASSUME = ENGINE_ASSUME + [
     "(mutating fact methods are covered by the correspondence only)",
     "dependency_hypothesis (explicit in every theorem that needs it): a successful assignment to x changes the from-scratch value only of nodes whose "
     "snapshot contains x's snapshot; proofs/Findings.v proves it cannot be dropped (D2, D3: recorded findings, reproduced on the real engine on every run); "
-    "for FLAT rule sets (proofs/Frame.v: variables are top-level names, field chains and literal selectors such as F.X, F.In.X, F.Arr[2], F.M[\"k\"] - no computed selectors or functions; expressions from constants, negation, parentheses, the binary operators and calls of admitted methods (side-effect free, independent of the receiver's state, not the built-in Len) on such variables, "
+    "for FLAT rule sets (proofs/Frame.v: variables are top-level names, field chains and literal selectors such as F.X, F.In.X, F.Arr[2], F.M[\"k\"] - no computed selectors or functions; expressions from constants, negation, parentheses, the binary operators, the value built-ins (Max, Min, Abs, IsZero, IsNil) and calls of admitted methods (side-effect free, independent of the receiver's state, not the built-in Len) on such variables, "
     "actions are assignments and control built-ins) both hypotheses are proved (Cxx_flat theorems) - there the theorems carry no assumption on the rules",
     "facts form a tree (no aliasing between fact objects); ASCII strings",
 ]
